@@ -84,7 +84,11 @@ func (pass *AnonymousEnumToExplicitType) processType(pkg string, currentObjectNa
 	}
 
 	if def.IsEnum() {
-		return pass.processAnonymousEnum(pkg, suggestedEnumName, def.AsEnum(), def.Nullable)
+		ref := pass.processAnonymousEnum(pkg, suggestedEnumName, def.AsEnum(), def.Nullable)
+		// the reference stands for the enum: it keeps its default value
+		ref.Default = def.Default
+
+		return ref
 	}
 
 	if def.IsDisjunction() {
